@@ -197,7 +197,7 @@ int main(int argc, char** argv) {
         gen.setPartner(GGeom{}, 0);
         bool cov = r.chance(6);
         GGeom A, B;
-        bool bigSmall = !cov && r.chance(dbl ? 3 : 6);
+        bool bigSmall = !cov && r.chance(dbl ? 4 : 9);
         if (cov) { A = coverage(r, out); B.container = 2; }
         else if (bigSmall) {
             // a big operand with many vertices (every edge cut into m lattice pieces) and a small partner somewhere inside its extent,
@@ -205,6 +205,11 @@ int main(int argc, char** argv) {
             // 20 vertices — the situation in which OverlayNG clips rings and limits lines before noding
             auto kind = [&]() { int k = (int) r.below(100); return k < 55 ? 2 : k < 90 ? 1 : 3; };
             A = gen.geom(kind(), true, false);
+            if (r.chance(45)) {          // several long lines in one operand (the limiter / clipper objects are reused from member to member)
+                A = GGeom{}; A.container = 1; int nl = r.range(2, 4);
+                for (int q = 0; q < nl; q++) { GGeom one = gen.geom(1, false, false); for (auto& e : one.elems) if (e.kind == 1) A.elems.push_back(e); }
+                if (A.elems.empty()) A = gen.geom(1, true, false);
+                out.count("big_small_multiline"); }
             long m = r.range(4, 8); scaleGeom(A, m, true);
             long W = (long) gen.span * m; int small = r.range(3, 5);
             long ox = r.range(0, (int) std::max<long>(0, W - small)), oy = r.range(0, (int) std::max<long>(0, W - small));
